@@ -18,7 +18,7 @@ from .poly import Poly
 from .report import norm_text
 from .values import (
     FALSE, NONE, TRUE, Z, AVal, BoundV, ClassV, Const, DictV, Env, ExtMethodV, ExtV, FuncV, LambdaV, ListV, ModV,
-    ObjV, PartialV, SuperV, TV, Unk, VmapV, clone_value, const_to_tv, join,
+    ObjV, PartialV, SetV, SuperV, TV, Unk, VmapV, clone_value, const_to_tv, join,
 )
 
 BUILTINS = {
@@ -585,8 +585,8 @@ class Interp:
     def s_For(self, st, env):
         it = self.eval(st.iter, env)
         seq = self.ops.iterate(it, st.iter, env, parts=self.join_depth == 0)  # ("concrete", [vals]) | ("abstract", elem, info) | ("parts", elem, info, [vals])
-        if seq[0] != "concrete" and seq[1] is None:
-            # summary of a collection that never received an element
+        if seq[0] != "concrete" and (self._void_elem(seq[1]) or self._decided_empty(it)):
+            # summary of a collection that never received an element / that this path decided to be empty
             seq = ("concrete", [])
         if seq[0] != "concrete" and self.join_depth == 0 and self._range_known_empty(it):
             # `range(c)` where this path already decided `c > 0` to be false: zero iterations
@@ -644,6 +644,28 @@ class Interp:
             else:
                 self._merge_out(outs, NORMAL, final, None)
         return outs
+
+    def _decided_empty(self, coll) -> bool:
+        """The emptiness question about this key collection was already answered 'empty' on the current path."""
+        if self.join_depth > 0:
+            return False
+        v = coll.payload if isinstance(coll, ObjV) and coll.payload is not None else coll
+        if isinstance(v, DictV):
+            v = v.keys
+        if not isinstance(v, (ListV, SetV)) or v.items is not None:
+            return False
+        at = sorted(self.ops.atoms_of(v))
+        if not at:
+            return False
+        dec = self.trace.decided
+        return dec.get("nonempty?" + "+".join(at)) is False or all(dec.get("nonempty?" + a) is False for a in at)
+
+    @staticmethod
+    def _void_elem(elem) -> bool:
+        """The generic element of a summary that never received an element (also as the value half of dict items)."""
+        if elem is None:
+            return True
+        return isinstance(elem, ListV) and elem.kind == "tuple" and elem.items is not None and any(x is None for x in elem.items)
 
     def _range_known_empty(self, it) -> bool:
         from .values import ListV, TV
@@ -984,6 +1006,8 @@ class Interp:
         g = gens[gi]
         it = self.eval(g.iter, env)
         seq = self.ops.iterate(it, g.iter, env)
+        if seq[0] != "concrete" and (self._void_elem(seq[1]) or self._decided_empty(it)):
+            seq = ("concrete", [])  # summary of a collection that never received an element / that this path decided to be empty
         if seq[0] == "concrete":
             leaves = []
             for v in seq[1]:
